@@ -43,7 +43,7 @@ Definition presents_right_secret (p : pres) : bool :=
   | _ => false
   end.
 Definition presents_ok_assertion (p : pres) : bool :=
-  match p with PAssert AOk | PXAssert _ => true | _ => false end.
+  match p with PAssert AOk | PAssertNoType | PAssertWrongType | PXAssert _ => true | _ => false end.
 Definition identifies (p : pres) : bool := match p with PNone => false | _ => true end.
 
 (* "authenticated in the way it is registered" (Appendix D) *)
@@ -125,7 +125,7 @@ Definition names_other (p : pres) : bool :=
 Definition other_justified (i : input) : bool :=
   match victim_of (i_pres i) with
   | Some vm => justified (mkInput (i_router i) (i_endpoint i) (i_cfg i) (victim_reg vm) PIdOnly
-                                  (i_grant i) (i_pl i))
+                                  (i_grant i) (i_pl i) (i_prev i))
   | None => false
   end.
 
